@@ -19,13 +19,19 @@ DDT = np.dtype([('announcement_date', '<u4'), ('book_closure_date', '<u4'), ('ex
                 ('payable_date', '<u4'), ('dividend_cash_before_tax', '<f8'), ('round_lot', '<u4')])
 
 
-def calendar(rnd, n, start=None):
+def calendar(rnd, n, start=None, week_off=False):
     d = start or (datetime.date(2020, 1, 1) + datetime.timedelta(days=rnd.randrange(330)))
     out = []
     hol = set()
     for _ in range(rnd.randrange(0, 3)):
         s = d + datetime.timedelta(days=rnd.randrange(n * 2))
         for k in range(rnd.randrange(1, 7)):
+            hol.add(s + datetime.timedelta(days=k))
+    if week_off:
+        # a market closure that covers a whole calendar week (Spring Festival / National Day style): Saturday to the Sunday of the week after
+        s = d + datetime.timedelta(days=rnd.randrange(7, max(8, n)))
+        s += datetime.timedelta(days=(5 - s.weekday()) % 7)
+        for k in range(9):
             hol.add(s + datetime.timedelta(days=k))
     while len(out) < n:
         if d.weekday() < 5 and d not in hol:
@@ -40,7 +46,7 @@ def gen_market(rnd, ndays=22, warm=3, n_stocks=None, with_future=None, opts=None
     S['futures']; S['div'] {id:[(announce,book,ex,payable,cash_per_lot,lot)]}; S['split'] {id:[(ex14,ratio)]};
     S['fac'] {id:[(start14,factor)]}; S['sus'] {id:[d8]}; S['trf'] {pred:{successor,share_conversion_ratio}}"""
     opts = opts or {}
-    cal = calendar(rnd, ndays + warm, opts.get("cal_start"))
+    cal = calendar(rnd, ndays + warm, opts.get("cal_start"), bool(opts.get("week_off")))
     S = {"cal": cal, "stocks": [], "futures": [], "div": {}, "split": {}, "fac": {}, "sus": {}, "trf": {}, "warm": warm}
     nst = n_stocks if n_stocks is not None else rnd.randrange(1, 4)
     p_delist = opts.get("p_delist", 0.2)
